@@ -495,11 +495,10 @@ func runSched(t *SchedTrace, pol sched.Policy, schedSeed uint64, replay [][]sche
 			}
 		}
 	}
-	pkgWarm := sha256.Sum256(pkgSnapHook()())
-	if pkgConc != pkgWarm {
-		so.Violation = viol("package-state-changed-by-warm-calls", "pkgstate", "package-level state after the concurrent phase differs from the state after re-running the same calls sequentially (state depends on the call history)")
-		return so
-	}
+	// (Package state after the warm re-execution is deliberately not compared with
+	// the state after the concurrent phase: a correct tree may keep call counters
+	// or statistics. The comparison below, against a sequential cold process that
+	// made the same calls, is robust to that.)
 
 	// reference: sequential cold process
 	self, _ := os.Executable()
